@@ -161,8 +161,16 @@ def run(ck, P):
     rh = P.fn("hashmap_rehash", M)
     ck.analysed(rh)
     frees = [S(e.args[0]) for e in rh.events() if is_free_call(e)]
-    ck.ob("C05.2-MOVES", rh.site("rehash"), "old_table" in frees and "new_table" in frees and list(rh.calls("memcpy")) != [],
-          "rehash frees %s" % frees)
+    # what is freed, whatever the locals are called: the table the map had (a copy of m->table) and the freshly allocated one
+    fsrc = set()
+    for e in rh.events():
+        if is_free_call(e):
+            a0 = strip(e.args[0])
+            fsrc |= rules.value_sources(rh, a0["name"]) if a0["k"] == "var" else {S(a0)}
+    old_freed = any(x_ == "m->table" for x_ in fsrc)
+    new_freed = any("_calloc" in x_ or "_malloc" in x_ for x_ in fsrc)
+    ck.ob("C05.2-MOVES", rh.site("rehash"), old_freed and new_freed and list(rh.calls("memcpy")) != [],
+          "rehash frees %s (values: %s)" % (frees, sorted(fsrc)))
 
     # ------------------------------------------------------------------ 3. bookkeeping
     ck.rule("C05.3-LENGTH", "R-PAIR: a key becomes non-NULL exactly with length++ (hashmap_put), clear_elem clears the key and does "
